@@ -31,6 +31,7 @@ def record(args):
         rec.expect_adiabatic = (case.get('gap_model', 'flow') == 'none')
         try:
             inp, r = cases.build(dassh, case, str(d))
+            ductobs.tag_walls(r, case)
             with rec:
                 with drive.Recorder(dassh, r, []) as rr:
                     rr.sweep(max_steps=max_steps)
@@ -52,8 +53,11 @@ def generated_states(seed, n):
     try:
         sl = dict(scenarios.single_lattice(rng, 'quick'))
         for key in ('rod2-adiabatic', 'rod3-dd-flowbyp', 'rod2-3duct',
-                    'multi-simple', 'multi-6node'):
+                    'multi-simple', 'multi-6node',
+                    'opt-dd-unequal-walls-regions',
+                    'opt-3duct-unequal-walls-lowfi'):
             inp, r = cases.build(dassh, sl[key], str(d / key))
+            ductobs.tag_walls(r, sl[key])
             asm = r.assemblies[0]
             rec = ductobs.DuctRecorder(dassh, FLUX_SCALE)
             with rec:
@@ -114,7 +118,8 @@ def run(tier, res, replay=None):
             'opt-3duct-convapprox', 'opt-dd-regions-adiabatic-gravity',
             'opt-uctd-grid-regions', 'opt-delta-temp-bc-noflowgap',
             'opt-five-regions', 'opt-only-lower-region-dd',
-            'opt-htc-custom-dd', 'opt-lowfi-cf-float']
+            'opt-htc-custom-dd', 'opt-lowfi-cf-float',
+            'opt-dd-unequal-walls-regions', 'opt-3duct-unequal-walls-lowfi']
     lab = [(k, sl[k], 60 if tier == 'quick' else None) for k in keys]
     # un-rodded regions of both kinds with the adiabatic option
     for k in ('multi-6node', 'multi-simple', 'multi-convfactor'):
